@@ -223,3 +223,55 @@ def r09_10(ctx):
     from .c01 import r01_4
     r02_2(ctx)
     r01_4(ctx)
+
+
+@rule("R09.11", min_instances=6, desc="a value given for a concatenation of symbols is split among them by their own sizes, in order (for_all_primitives: used by set_value, set_initial, set_der, set_next)")
+def r09_11(ctx):
+    """`ocp.set_value(vertcat(a, b), v)`: primitive i receives the entries [offset_i, offset_i + nnz_i) of the flattened
+    value with offset_i = sum of the sizes of its predecessors; a single symbol receives the value unchanged."""
+    P = ctx.prog
+    f = P.function("casadi_helpers", "for_all_primitives")
+    sc = ctx.scope(f)
+    expr, rhs, cb = f.params[0], f.params[1], f.params[2]
+    calls = [c for c in walk_no_nested(f.node) if isinstance(c, ast.Call) and isinstance(c.func, ast.Name) and c.func.id == cb]
+    single = [c for c in calls if not sc.enclosing_loops(c)]
+    ok = len(single) == 1 and [ast.unparse(a) for a in single[0].args] == [expr, rhs] and any(ast.unparse(t) == "%s.is_symbolic()" % expr and p for t, p in sc.path_guards(single[0]))
+    ctx.check(ok, "for_all_primitives hands a single symbol its value unchanged", detail="single-symbol shortcut", expected="if expr.is_symbolic(): callback(expr, rhs)", found="; ".join(ast.unparse(c) for c in single), fi=f)
+    looped = [c for c in calls if sc.enclosing_loops(c)]
+    ok = len(looped) == 1
+    ctx.check(ok, "for_all_primitives calls back once per primitive", detail="per-primitive callback", expected="for p in expr.primitives(): callback(p, <its slice>)", found=str(len(looped)), fi=f)
+    if not ok:
+        return
+    c = looped[0]
+    lp = sc.enclosing_loops(c)[-1]
+    n = Norm(sc)
+    pv = lp[0].id if isinstance(lp[0], ast.Name) else None
+    okl = pv is not None and n.key(lp[1]) == Norm(None).key(ast.parse("%s.primitives()" % expr, mode="eval").body)
+    ctx.check(okl, "for_all_primitives walks the primitives of the expression in order", detail="iteration", expected="for p in expr.primitives()", found=ast.unparse(lp[1]), fi=f)
+    if not okl:
+        return
+    # the slice handed to primitive p
+    sl = [x for x in ast.walk(c.args[1]) if isinstance(x, ast.Subscript) and isinstance(x.slice, ast.Slice)] if len(c.args) == 2 else []
+    ok = len(sl) == 1 and ast.unparse(c.args[0]) == pv and sl[0].slice.lower is not None and sl[0].slice.upper is not None and isinstance(sl[0].slice.lower, ast.Name)
+    ctx.check(ok, "primitive p receives a slice [offset : offset + size)", detail="slice form", expected="rhs[offset:offset+p.nnz()]", found=ast.unparse(c.args[1]) if len(c.args) == 2 else "", fi=f)
+    if not ok:
+        return
+    off = sl[0].slice.lower.id
+    width = Norm(None).poly(sl[0].slice.upper) - Norm(None).poly(sl[0].slice.lower)
+    ctx.check(width == expected("%s.nnz()" % pv), "the slice of primitive p has p.nnz() entries", detail="slice width", expected="%s.nnz()" % pv, found=str(width), fi=f, sample={"width": str(width)})
+    shaped = is_call_to(c.args[1], f.params[4]) or (isinstance(c.args[1], ast.Call) and len(c.args[1].args) == 2)
+    ctx.check(shaped and ast.unparse(c.args[1].args[0]) == "%s.sparsity()" % pv, "the slice is reshaped to p's own sparsity", detail="element layout of matrix-valued symbols", expected="rhs_type(p.sparsity(), slice)",
+              found=ast.unparse(c.args[1])[:80], fi=f)
+    inits = [d for d in sc.defs.get(off, []) if d.kind == "assign" and not sc.enclosing_loops(d.stmt)]
+    upd = [d for d in sc.defs.get(off, []) if d.kind in ("assign", "aug") and sc.enclosing_loops(d.stmt) and sc.enclosing_loops(d.stmt)[-1][2] is lp[2]]
+    loopdef = [d for d in sc.defs.get(off, []) if d.kind == "for"]
+    ok = len(inits) == 1 and ast.unparse(inits[0].value) == "0" and len(upd) == 1 and not loopdef and sc.order[upd[0].stmt] > sc.order[c]
+    if ok:
+        st = upd[0].stmt
+        if isinstance(st, ast.AugAssign):
+            ok = isinstance(st.op, ast.Add) and Norm(None).poly(st.value) == expected("%s.nnz()" % pv)
+        else:
+            ok = Norm(None).poly(st.value) == Poly.atom(off) + expected("%s.nnz()" % pv)
+        ok = ok and not [g for g in sc.guards(st) if g not in sc.guards(c)]
+    ctx.check(ok, "the offset starts at 0 and advances by the size of each primitive after it was served", detail="entries of a multi-entry symbol handed to its successor (values shifted)",
+              expected="offset = 0; per primitive: callback(...); offset += p.nnz()", found="; ".join(ast.unparse(d.stmt) for d in inits + upd + loopdef), fi=f, sample={"offset": [ast.unparse(d.stmt) for d in inits + upd]})
